@@ -314,6 +314,7 @@ fn kinds_of(rng: &mut Rng, d: &GDoc, id: u64) -> Vec<Call> {
         Some(GKind::Stream { .. }) => T_STREAM,
         Some(GKind::Image { .. }) => T_IMAGE,
         Some(GKind::ObjStm { .. }) => T_OBJSTM,
+        Some(GKind::Annot { .. }) | Some(GKind::AnnotArr { .. }) => T_PRIM,
         None => T_PRIM,
     };
     let mut other = *rng.pick(&MODEL_TYPES);
@@ -435,6 +436,7 @@ fn count_doc(st: &mut RStream, d: &GDoc) {
         let k = match &o.kind {
             GKind::Int(_) => "int", GKind::Dict => "dict", GKind::Pages { .. } => "pages", GKind::Page { .. } => "page", GKind::Cat { .. } => "catalog",
             GKind::Stream { .. } => "stream", GKind::Image { .. } => "image", GKind::ObjStm { .. } => "objstm",
+            GKind::Annot { .. } => "annot", GKind::AnnotArr { .. } => "annot-array",
         };
         st.count(&format!("kind={}", k));
         if let GPlace::InStm(..) = o.place {
@@ -539,16 +541,16 @@ pub fn witnesses() -> Vec<(&'static str, GDoc, Vec<Call>)> {
     // D27: image data (stops before the Flate image codec) then the stream data of the same image
     let mut objs = base_objs();
     objs.push(img(4, vec![F_FLATE], b"image samples image samples"));
-    v.push(("D27-image-then-stream", GDoc { size: 6, root: 1, tolerant: false, objs: objs.clone(), xref_stream: false }, vec![Call::RawImg(4), Call::SData(4)]));
-    v.push(("D27-stream-then-image", GDoc { size: 6, root: 1, tolerant: false, objs, xref_stream: false }, vec![Call::SData(4), Call::ImgData(4), Call::RawImg(4)]));
+    v.push(("D27-image-then-stream", GDoc { size: 6, root: 1, tolerant: false, objs: objs.clone(), xref_stream: false, annots: vec![] }, vec![Call::RawImg(4), Call::SData(4)]));
+    v.push(("D27-stream-then-image", GDoc { size: 6, root: 1, tolerant: false, objs, xref_stream: false, annots: vec![] }, vec![Call::SData(4), Call::ImgData(4), Call::RawImg(4)]));
     // D28: an object stream asked for as a page-tree node; afterwards its members must still resolve
     let mut objs = base_objs();
     objs.push(GObj { id: 4, kind: GKind::Int(1004), place: GPlace::InStm(5, 0) });
     objs.push(GObj { id: 5, kind: GKind::ObjStm { members: vec![4], filters: vec![F_FLATE] }, place: GPlace::Direct });
-    v.push(("D28-cached-error-other-type", GDoc { size: 7, root: 1, tolerant: false, objs, xref_stream: true }, vec![Call::Get(T_PAGES, 5), Call::Resolve(4), Call::Get(T_I32, 4), Call::Get(T_STREAM, 5)]));
+    v.push(("D28-cached-error-other-type", GDoc { size: 7, root: 1, tolerant: false, objs, xref_stream: true, annots: vec![] }, vec![Call::Get(T_PAGES, 5), Call::Resolve(4), Call::Get(T_I32, 4), Call::Get(T_STREAM, 5)]));
     let mut objs = base_objs();
     objs.push(GObj { id: 4, kind: GKind::Dict, place: GPlace::Direct });
-    v.push(("D28-int-then-dict", GDoc { size: 6, root: 1, tolerant: false, objs, xref_stream: false }, vec![Call::Get(T_I32, 4), Call::Get(T_DICT, 4), Call::Get(T_PRIM, 4)]));
+    v.push(("D28-int-then-dict", GDoc { size: 6, root: 1, tolerant: false, objs, xref_stream: false, annots: vec![] }, vec![Call::Get(T_I32, 4), Call::Get(T_DICT, 4), Call::Get(T_PRIM, 4)]));
     // D43: /Parent links 2 -> 4 -> 2, tolerant mode
     let objs = vec![
         GObj { id: 1, kind: GKind::Cat { pages: 2 }, place: GPlace::Direct },
@@ -556,7 +558,7 @@ pub fn witnesses() -> Vec<(&'static str, GDoc, Vec<Call>)> {
         GObj { id: 3, kind: GKind::Page { parent: 4 }, place: GPlace::Direct },
         GObj { id: 4, kind: GKind::Pages { parent: 2, kids: vec![3], count: 1 }, place: GPlace::Direct },
     ];
-    v.push(("D43-cyclic-parents", GDoc { size: 6, root: 1, tolerant: true, objs, xref_stream: false }, vec![Call::Get(T_PAGES, 4), Call::Get(T_PAGES, 2)]));
+    v.push(("D43-cyclic-parents", GDoc { size: 6, root: 1, tolerant: true, objs, xref_stream: false, annots: vec![] }, vec![Call::Get(T_PAGES, 4), Call::Get(T_PAGES, 2)]));
     v
 }
 
